@@ -47,7 +47,7 @@ def run(ctx):
     if ctx.replay and 'cases' in ctx.replay:
         cases = [cl.case_from_json(j) for j in ctx.replay['cases']]
     else:
-        cases = gen_c11(ctx.rng, 1500 if ctx.quick() else 12000)
+        cases = gen_c11(ctx.rng, 4000 if ctx.quick() else 20000)
     impl, model = cl.run_both(ctx, cases)
     n_mis, n_spec = cl.judge(ctx, 'C11', cases, impl, model)
     ctx.oblige('correspondence:client-task-scripts', n_mis == 0 and n_spec == 0, f'{n_mis} model / {n_spec} spec mismatches in {len(cases)} scripts')
